@@ -181,3 +181,8 @@ LEVEL_TEXT = ("Lean theorems: the ExecGroupBy scan equals the textbook grouping 
 LEVEL_NOTE = ("Group-key equality is Go `==` on scalars (modelled, panics on slices/maps mapped to errors). Aggregates proved over a "
               "lawful abstract number type; float summation order is the same left fold in model and code.")
 TECHNIQUE = "Lean 4 proof (induction over the row list; refinement of the scan to eraseDups/filter spec) + differential correspondence"
+
+# the text of the functions this property's model mirrors is a regenerated fact (Obligations/PinC03: closed by rfl)
+FACTS = True
+LEAN_TARGETS = list(LEAN_TARGETS) + ["Genql.Obligations.PinC03"]
+THEOREMS = list(THEOREMS) + ["Genql.Obligations.PinC03.pinned_text"]
